@@ -14,15 +14,18 @@ EXTENDS Naturals, Sequences, TLC, Json, IOUtils
 Rec  == ndJsonDeserialize(IOEnv.TRACE)
 PROP == IOEnv.PROP
 
-ASSUME TLCSet(1, {}) /\ TLCSet(2, {})
+ASSUME TLCSet(1, {}) /\ TLCSet(2, {}) /\ TLCSet(3, {})
 
 Has(e, f) == f \in DOMAIN e
 
 MarkBad(l)   == TLCSet(1, TLCGet(1) \cup {l})
 MarkDrift(l) == TLCSet(2, TLCGet(2) \cup {l})
+(* rejected, but the specification recognises the observation as an instance of a recorded known finding *)
+MarkKnown(l) == TLCSet(1, TLCGet(1) \cup {l}) /\ TLCSet(3, TLCGet(3) \cup {l})
 
 Report ==
     /\ PrintT(<<"CONSUMED", TLCGet("stats").diameter - 1, "OF", Len(Rec)>>)
     /\ PrintT(<<"BAD", TLCGet(1)>>)
     /\ PrintT(<<"DRIFT", TLCGet(2)>>)
+    /\ PrintT(<<"KNOWN", TLCGet(3)>>)
 =============================================================================
